@@ -49,6 +49,7 @@ type root struct {
 	localRanges [][2]*Term // typed backing arrays allocated by this activation (start, bytes)
 	knownRanges [][2]*Term // typed slices seen so far (backing array start, bytes): memory that exists before later allocations
 	localSizes  []int64
+	freshMaps   map[string][]freshMap // map type key -> handles of the maps made by this activation
 	watch       []leaf
 	e           *Engine
 	fn          *ssa.Function
@@ -60,6 +61,11 @@ type root struct {
 	inputs      []leaf
 	panics      bool
 	props       map[string]bool // when non-nil: only clauses with these tags (or untagged)
+}
+
+type freshMap struct {
+	h *Term
+	t *types.Map
 }
 
 type FnRun struct {
